@@ -63,6 +63,7 @@ let parse_cmd (t : string) : ctok =
   match strip_prefix "u" t with Some _ -> Cmd (KErrors O) | None ->       (* head + part of the body: none *)
   match strip_prefix "f" t with Some e -> ErrThenConnect (int_of_string e) | None ->
   match strip_prefix "F" t with Some e -> ErrThenRevoke (int_of_string e) | None ->
+  match strip_prefix "G" t with Some e -> ErrThenConnect (int_of_string e) | None ->
   failwith ("bad cmd " ^ t)
 
 let b01 b = if b then "1" else "0"
